@@ -416,6 +416,34 @@ func evalMatrix(variant string, m amodel, univ int, r sink, stats *aStats) {
 			}
 			emit("BroadcastOperator.To.Except.Emit", T, E, func(n int) { op.Emit("ev", n) })
 			fetch("BroadcastOperator.To.Except.FetchSockets", T, E, op.FetchSockets)
+			// the same selection built by chaining: one room per call (To, In alternating; Except), and the
+			// first room alone followed by the rest - "to emit to multiple rooms, you can call To several times"
+			if popcount(T) > 1 || popcount(E) > 1 {
+				one, split := root, root
+				for i, rm := range roomsOf(T) {
+					if i%2 == 0 {
+						one = one.To(rm)
+					} else {
+						one = one.In(rm)
+					}
+				}
+				for _, rm := range roomsOf(E) {
+					one = one.Except(rm)
+				}
+				if rt := roomsOf(T); len(rt) > 1 {
+					split = split.To(rt[:len(rt)-1]...).To(rt[len(rt)-1])
+				} else {
+					split = split.To(rt...)
+				}
+				if re := roomsOf(E); len(re) > 1 {
+					split = split.Except(re[:len(re)-1]...).Except(re[len(re)-1])
+				} else if len(re) == 1 {
+					split = split.Except(re...)
+				}
+				emit("BroadcastOperator chained one room per call (To/In/Except).Emit", T, E, func(n int) { one.Emit("ev", n) })
+				fetch("BroadcastOperator chained one room per call (To/In/Except).FetchSockets", T, E, one.FetchSockets)
+				emit("BroadcastOperator.To(all but the last).To(last).Except(all but the last).Except(last).Emit", T, E, func(n int) { split.Emit("ev", n) })
+			}
 		}
 		stats.evals++
 		judgeSel("adapter", m, T, 0, countSet(a.Sockets(mapset.NewSet[adapter.Room](roomsOf(T)...))), viol("adapter.Sockets", T, 0))
